@@ -108,6 +108,23 @@ def pad_sweep(u, case):
                 case(i, 0, '-', v, 'pad-sweep')
 
 
+def long_cases(u, case, quick):
+    """lengths that cross the byte boundaries of the length word (255/256/257, 65535/65536/65537; 2^24+1 in the
+    thorough tier) for strings, zero-copy sequences and deep sequences"""
+    lens = [255, 256, 257, 65535, 65536, 65537] + ([] if quick else [(1 << 24) + 1])
+    want = {'String': lambda n: 's"%s"' % ('61' * n), 'Box<[u16]>': lambda n: '[' + ''.join('%d,' % (k & 0xffff) for k in range(n)) + ']',
+            'Vec<u64>': lambda n: '[' + ''.join('%d,' % (k * 2654435761 % (1 << 64)) for k in range(n)) + ']',
+            'Vec<String>': lambda n: '[' + ''.join('s"%02x",' % (0x61 + k % 26) for k in range(n)) + ']',
+            'Vec<()>': lambda n: '[' + '(),' * n + ']'}
+    for i, t in enumerate(u.types):
+        f = want.get(t.rust())
+        if f is None: continue
+        for n in lens:
+            if n > 70000 and t.rust() not in ('String', 'Vec<()>'): continue
+            if n > 300 and t.rust() == 'Vec<String>': continue     # (the model's deep-sequence writer is quadratic)
+            case(i, 0, '-', f(n), 'long')
+
+
 def gen_cases(prop, u, seed, tier, probe=None):
     """probe(lines) -> answers of the implementation (used to aim mutations at tags and lengths)"""
     rng = random.Random('%s-%s' % (seed, prop))
@@ -150,6 +167,7 @@ def gen_cases(prop, u, seed, tier, probe=None):
                     cs.add('alloc %d 0 %s' % (i, v), kind='alloc', ti=i, val=v, group=None, factor=1, family='alloc-plain')
     elif prop in ('C01', 'C02'):
         pad_sweep(u, case)
+        long_cases(u, case, quick)
         for i, t in enumerate(u.types):
             for v in values_for(t, rng, nvals):
                 case(i, 0, '-', v, 'roundtrip')
